@@ -19,8 +19,8 @@ PROPS = {
     "C05": {"kani": [{"module": "c05", "profiles": Q_DEV_T_BOTH}]},
     "C04": {"kani": [{"module": "c04", "profiles": Q_DEV}], "unwind": ["ThinArc::with_arc_mut", "ThinArc::with_arc", "OffsetArc::with_arc", "ArcBorrow::with_arc", "Arc::with_raw_offset_arc"]},
     "C03": {"kani": [{"module": "c03", "profiles": Q_DEV_T_BOTH}, funnel("funnel_get_unique", "funnel_try_from", "funnel_make_unique", "funnel_offset_make_mut", "funnel_thin_with_arc_mut_get_mut", "tv_get_mut", "tv_is_unique", "tv_try_unique", "tv_make_mut")], "wmm": True, "prepare": True, "unwind": True},
-    "C08": {"kani": [{"module": "c08", "profiles": Q_DEV_T_BOTH}, funnel("funnel_make_unique", "funnel_offset_make_mut", "tv_make_mut", "tv_is_unique")], "wmm": True, "prepare": True},
-    "C09": {"kani": [{"module": "c09", "profiles": Q_DEV_T_BOTH}, funnel("funnel_try_from", "tv_try_unwrap", "tv_unwrap_or_clone", "tv_try_unique", "tv_drop")], "wmm": True, "prepare": True},
+    "C08": {"kani": [{"module": "c08", "profiles": Q_DEV_T_BOTH}, funnel("funnel_make_unique", "funnel_offset_make_mut", "tv_make_mut", "tv_is_unique")], "wmm": True, "prepare": True, "unwind": ["Arc::make_mut", "Arc::make_unique", "OffsetArc::make_mut"]},
+    "C09": {"kani": [{"module": "c09", "profiles": Q_DEV_T_BOTH}, funnel("funnel_try_from", "tv_try_unwrap", "tv_unwrap_or_clone", "tv_try_unique", "tv_drop")], "wmm": True, "prepare": True, "unwind": ["Arc::unwrap_or_clone"]},
     "C01": {"kani": [{"module": "c01", "profiles": Q_DEV}], "unwind": True},
     "C16": {"kani": [{"module": "c16", "profiles": Q_DEV_T_BOTH}, {"module": "c16n", "crate": "kani_nostd", "profiles": Q_DEV}], "unwind": ["abort_nostd"]},
 }
